@@ -23,6 +23,7 @@ import Flowjaxv.Driver.Flows
 import Flowjaxv.Driver.TrainGen
 import Flowjaxv.Driver.LossesGen
 import Flowjaxv.Driver.DistPublicGen
+import Flowjaxv.Driver.CtorsGen
 /-!
 Model driver: `lake env lean --run Driver.lean < ops.txt`.  One op per line in, one line out
 (`ERR <msg>` when the model rejects the op).
@@ -69,6 +70,7 @@ def dispatch (line : String) : String :=
       | "bnaf" => bnaf args
       | "par" => par args
       | "ac" => ac args
+      | "gc" => gc args
       | "family" => family args
       | "familyv" => familyv args
       | "familys" => familys args
